@@ -466,11 +466,11 @@ Definition half_ulp_ok (n d q : Z) : Prop :=
 Definition range_ok (q sh : Z) : Prop :=
   (2 ^ 52 <= q <= 2 ^ 53) \/ (sh = -1074 /\ 0 <= q <= 2 ^ 52).
 
-Lemma try_sh_correct : forall num den sh q' sh', try_sh num den sh = Some (q', sh') ->
-  sh' = sh /\ half_ulp_ok (fst (scaled num den sh)) (snd (scaled num den sh)) q' /\ range_ok q' sh.
+Lemma accept_q_correct : forall q n d sh q' sh', accept_q q n d sh = Some (q', sh') ->
+  sh' = sh /\ half_ulp_ok n d q' /\ range_ok q' sh.
 Proof.
-  intros num den sh q' sh' H. unfold try_sh in H. destruct (scaled num den sh) as [n d]. cbn [fst snd].
-  remember (fdiv n d) as q eqn:Eq. clear Eq. remember (n - q * d) as r eqn:Er.
+  intros q n d sh q' sh' H. unfold accept_q in H.
+  remember (n - q * d) as r eqn:Er.
   destruct ((0 <=? r) && (r <? d) &&
             ((2 ^ 52 <=? q) && (q <? 2 ^ 53) || (sh =? -1074) && (0 <=? q) && (q <? 2 ^ 52))) eqn:C; [|discriminate].
   injection H as <- <-.
@@ -485,6 +485,13 @@ Proof.
     + apply andb_true_iff in R as [R1 R2]. apply Z.leb_le in R1. apply Z.ltb_lt in R2. left. lia.
     + apply andb_true_iff in R as [R R3]. apply andb_true_iff in R as [R1 R2].
       apply Z.eqb_eq in R1. apply Z.leb_le in R2. apply Z.ltb_lt in R3. right. lia.
+Qed.
+
+Lemma try_sh_correct : forall num den sh q' sh', try_sh num den sh = Some (q', sh') ->
+  sh' = sh /\ half_ulp_ok (fst (scaled num den sh)) (snd (scaled num den sh)) q' /\ range_ok q' sh.
+Proof.
+  intros num den sh q' sh' H. unfold try_sh in H. destruct (scaled num den sh) as [n d]. cbn [fst snd].
+  exact (accept_q_correct _ _ _ _ _ _ H).
 Qed.
 
 Lemma dec_den_pos : forall e, 0 < dec_den e.
@@ -522,3 +529,100 @@ Proof.
   intros q Hq. unfold bits_of, inf_bits. change (-1074 + 1074) with 0. rewrite Z.mul_0_l, Z.add_0_l.
   destruct (Z.leb_spec (2047 * 2 ^ 52) q) as [H|H]; [exfalso; nia | reflexivity].
 Qed.
+
+Lemma dec_fraction : forall m e,
+  (0 <= e -> dec_num m e = m * 10 ^ e /\ dec_den e = 1) /\
+  (e < 0 -> dec_num m e = m /\ dec_den e = 10 ^ (- e)).
+Proof.
+  intros m e. unfold dec_num, dec_den. destruct (Z.leb_spec 0 e); split; intros; try lia; split; reflexivity.
+Qed.
+
+(* num/den = m * 10^e exactly; the result q * 2^sh is within half a unit in the last place of it, ties to even,
+   q has 53 bits (or fewer only at the smallest exponent), written without division *)
+Definition correctly_rounded (num den q sh : Z) : Prop :=
+  0 < den /\ -1074 <= sh /\
+  (0 <= sh -> 2 * Z.abs (num - q * (den * 2 ^ sh)) <= den * 2 ^ sh /\
+              (2 * Z.abs (num - q * (den * 2 ^ sh)) = den * 2 ^ sh -> Z.even q = true)) /\
+  (sh < 0 -> 2 * Z.abs (num * 2 ^ (- sh) - q * den) <= den /\
+             (2 * Z.abs (num * 2 ^ (- sh) - q * den) = den -> Z.even q = true)) /\
+  ((2 ^ 52 <= q <= 2 ^ 53) \/ (sh = -1074 /\ 0 <= q <= 2 ^ 52)).
+
+Lemma dec_round_explicit : forall m e q sh, dec_round m e = Some (q, sh) ->
+  correctly_rounded (dec_num m e) (dec_den e) q sh.
+Proof.
+  intros m e q sh H. destruct (dec_round_correct m e q sh H) as (A & B & C).
+  rewrite scaled_spec in B. unfold correctly_rounded.
+  split; [apply dec_den_pos|]. split; [exact A|].
+  destruct (Z.leb_spec 0 sh) as [Hs|Hs]; cbn [fst snd] in B; destruct B as (B1 & B2 & B3).
+  - split; [intros _; split; assumption|]. split; [intros; lia | exact C].
+  - split; [intros; lia|]. split; [intros _; split; assumption | exact C].
+Qed.
+
+(* ================================================================ statements collected for Props.v *)
+Lemma radix_literal_exact_all :
+  (forall r d ds rest, radix_ok r -> rdigits r (d :: ds) -> rstop r rest ->
+     number_token (48 :: radix_char r :: (d :: ds) ++ rest) = TInt (pos_value r (d :: ds)) rest) /\
+  (forall c ds rest, is_digit c = true -> all_digits ds -> dec_stop (c :: ds) rest ->
+     number_token (c :: ds ++ rest) = TInt (pos_value 10 (c :: ds)) rest) /\
+  (forall c ds, is_digit c = true -> all_digits ds ->
+     number_chars_model (c :: ds) = MNum (NInt (Z.of_N (pos_value 10 (c :: ds))))) /\
+  (forall r c rest, radix_ok r -> is_rdigit r c = false ->
+     number_token (48 :: radix_char r :: c :: rest) = TInt 0 (radix_char r :: c :: rest)).
+Proof.
+  repeat split.
+  - exact radix_literal.
+  - exact decimal_literal.
+  - exact number_chars_digits.
+  - exact radix_fallback.
+Qed.
+
+Lemma char_code_literal_exact_all :
+  (forall c rest, is_plain c = true -> number_token (48 :: 39 :: c :: rest) = TInt c rest) /\
+  (forall rest, number_token (48 :: 39 :: 39 :: 39 :: rest) = TInt 39 rest) /\
+  (forall rest, number_token (48 :: 39 :: 34 :: rest) = TInt 34 rest) /\
+  (forall rest, number_token (48 :: 39 :: 96 :: rest) = TInt 96 rest) /\
+  (forall c rest, is_meta c = true -> number_token (48 :: 39 :: 92 :: c :: rest) = TInt c rest) /\
+  (forall c v rest, control_escape c = Some v -> number_token (48 :: 39 :: 92 :: c :: rest) = TInt v rest) /\
+  (forall d ds rest, rdigits 16 (d :: ds) -> valid_scalar (pos_value 16 (d :: ds)) = true ->
+     number_token (48 :: 39 :: 92 :: 120 :: (d :: ds) ++ 92 :: rest) = TInt (pos_value 16 (d :: ds)) rest) /\
+  (forall d ds rest, rdigits 8 (d :: ds) -> valid_scalar (pos_value 8 (d :: ds)) = true ->
+     number_token (48 :: 39 :: 92 :: (d :: ds) ++ 92 :: rest) = TInt (pos_value 8 (d :: ds)) rest).
+Proof.
+  repeat split.
+  - exact char_code_plain.
+  - exact char_code_quote.
+  - exact char_code_dquote.
+  - exact char_code_bquote.
+  - exact char_code_meta.
+  - exact char_code_control.
+  - exact char_code_hex.
+  - exact char_code_oct.
+Qed.
+
+Lemma float_bits_layout :
+  (forall q sh, 2 ^ 52 <= q < 2 ^ 53 -> -1074 <= sh -> sh + 1075 < 2047 ->
+     bits_of q sh = FBits ((sh + 1075) * 2 ^ 52 + (q - 2 ^ 52))) /\
+  (forall q, 0 <= q < 2 ^ 52 -> bits_of q (-1074) = FBits q).
+Proof. split; [exact bits_of_normal | exact bits_of_subnormal]. Qed.
+
+(* spellings rejected by number_chars/number_codes and, followed by " .", not read as a number either *)
+Definition rejected (s : list N) : Prop :=
+  number_chars_model s = MSyn /\ read_model (s ++ [32%N; 46%N]) = MNotNum.
+
+Definition rejected_spellings : list (list N) := map cs
+  ["1__0"; "1_a"; "1_."; "0x"; "0xg"; "0o8"; "0b2"; "0B1"; "0XFF"; "00x1"; "0''"; "0'ab"; "0'\e"; "0'\x41"; "0'\xD800\";
+   "0'\x110000\"; "1.e5"; "1.0e"; "1.0e+"; "1.0e-"; "1.5_0"; "1.5e1_0"; "1.0Inf"; "1.0e400"; "1.7976931348623159e308"; "1e10";
+   "+1"; "--1"; "- - 1"; "-a"; "a"; ""; " "; ".5"; "1 .0"; "1_/* c"; "0'\"; "-"; "0x_1"; "_1"]%string.
+
+Lemma rejected_all : Forall rejected rejected_spellings.
+Proof.
+  unfold rejected_spellings. cbn [map].
+  repeat (apply Forall_cons; [split; vm_compute; reflexivity|]). apply Forall_nil.
+Qed.
+
+(* spellings accepted by number_chars only because the input ends inside the token (NumberToken::Partial), although the
+   reader rejects them: the mirror reproduces the disagreement of the entry points *)
+Lemma partial_disagreement :
+  number_chars_model (cs "1_") = MNum (NInt 1) /\ read_model (cs "1_ .") = MNotNum /\ agree (cs "1_") = false /\
+  number_chars_model (cs "1_/") = MNum (NInt 1) /\ agree (cs "1_/") = false.
+Proof. repeat split; vm_compute; reflexivity. Qed.
